@@ -25,6 +25,8 @@ type errCase struct {
 	// Prime: a validation made immediately before (result ignored), e.g. the same sentence under
 	// the language in which it is valid.
 	Prime *primeCall `json:"prime,omitempty"`
+	// PrimeEncode: an entropy encoded (NewMnemonicByEntropy, same language) immediately before
+	PrimeEncode hexb `json:"prime_encode,omitempty"`
 }
 
 var c15Check = register("C15", "c15.error", func(c *errCase) error {
@@ -59,6 +61,9 @@ var c15Check = register("C15", "c15.error", func(c *errCase) error {
 		if class == "unknown" && (u == "" || gen.HasNFKDSpace(u)) {
 			harnessError("c15: unknown token %q is empty or contains white space", u)
 		}
+	}
+	if len(c.PrimeEncode) > 0 {
+		implEncode(c.PrimeEncode, implLang[l])
 	}
 	c.Prime.run()
 	err, p := implCheck(s, implLang[l])
@@ -306,6 +311,10 @@ func c15ErrorsProp(rt *rapid.T) {
 				cov.Class("shared-word-sentence")
 			}
 		}
+	}
+	if rapid.IntRange(0, 2).Draw(rt, "after-encode") == 0 {
+		c.PrimeEncode = gen.Entropy().Draw(rt, "prime-entropy").Bytes
+		cov.Class("after-encode")
 	}
 	c15Record(c, l)
 	if c15ErrorsPropK++; c15ErrorsPropK%499 == 1 {
